@@ -74,6 +74,13 @@ func (d *Dir) getNodes() []os.FileInfo {
 	return nodes
 }
 
+// isEmpty return true if directory has no nodes
+func (d *Dir) isEmpty() bool {
+	d.mu.RLock()
+	defer d.mu.RUnlock()
+	return len(d.nodes) == 0
+}
+
 // getNodes return nodes for directory
 func (d *Dir) contains(name string) bool {
 	d.mu.RLock()
